@@ -156,7 +156,9 @@ Judge(ev, exp, opname, endsExecution) ==
     ELSE IF exp.vm.status = "failed" THEN
         IF ~ev.ok /\ (exp.vm.err = "ANY" \/ exp.vm.err = ev.err \/ "err" \notin SetOf(cur.cmp)
                        \/ sess.ctx.sigver = "TAPROOT" \/ opname = "commit")
-        THEN /\ mode' = "skip" /\ cov' = cov \cup {<<opname, exp.vm.err>>} /\ stats' = Bump("failed")
+        THEN \* the commitment check is a gate: once it has failed every further step must fail too (mode "stuck"); after an ordinary
+             \* failed operation the rest of the execution is outside the specification (DESIGN.md section 7: compared to the first failure)
+             /\ mode' = (IF opname = "commit" THEN "stuck" ELSE "skip") /\ cov' = cov \cup {<<opname, exp.vm.err>>} /\ stats' = Bump("failed")
              /\ UNCHANGED <<divs, sess, cur>>
         ELSE /\ divs' = Append(divs, Div("step must fail", [op |-> opname, err |-> exp.vm.err, pre |-> Show(sess)], ev))
              /\ mode' = "skip" /\ UNCHANGED <<cov, sess, cur, stats>>
@@ -301,6 +303,12 @@ Next ==
                        /\ mode' = "skip" /\ UNCHANGED <<cov, sess, cur, stats>>
                   ELSE /\ mode' = "skip" /\ stats' = Bump("failed") /\ UNCHANGED <<divs, cov, sess, cur>>)
              ELSE UNCHANGED <<divs, cov, sess, cur, mode, stats>>)
+       ELSE IF mode = "stuck" THEN
+            (IF ev.e \in {"Step", "Run"} /\ Has(ev, "ok") THEN
+                 (IF ~ev.ok THEN /\ cov' = cov \cup {<<"commit", "stays failed">>} /\ UNCHANGED <<divs, sess, cur, mode, stats>>
+                  ELSE /\ divs' = Append(divs, Div("a failed commitment check must stay failed: the committed script may not run", [op |-> "commit", pre |-> Show(sess)], ev))
+                       /\ mode' = "skip" /\ UNCHANGED <<cov, sess, cur, stats>>)
+             ELSE UNCHANGED <<divs, cov, sess, cur, mode, stats>>)
        ELSE /\ stats' = Bump("skipped") /\ UNCHANGED <<divs, cov, sess, cur, mode>>
 
 Spec == Init /\ [][Next]_vars
@@ -310,7 +318,7 @@ Result == [divs |-> divs, cov |-> cov, stats |-> stats, lines |-> Len(Tr)]
 Finished == l = Len(Tr) + 1
 WriteResult == Finished => ndJsonSerialize(OutFile, <<Result>>)
 \* the spec's own invariants, evaluated at every state of every implementation trace
-TypeOK == /\ mode \in {"idle", "await", "run", "skip", "vonly"}
+TypeOK == /\ mode \in {"idle", "await", "run", "skip", "vonly", "stuck"}
           /\ ((mode = "run" /\ "vm" \in DOMAIN sess) => /\ sess.vm.status \in {"running", "ok"}
                               /\ Len(sess.vm.stack) + Len(sess.vm.alt) <= RealLimits.stack
                               /\ sess.vm.pc <= Len(sess.ctx.script)
